@@ -46,6 +46,11 @@ CHECKS = {
          "Both roles run generated API programs (1..3 exchanges, send_data incl. empty and 64 KiB buffers, trailers, finish, repeated server shutdown(n), client shutdown, handles dropped between calls, builder option classes, grease on/off) over a transport that accepts writes a few bytes at a time; every byte each h3 end wrote on every stream is parsed by the reference: legal stream types, SETTINGS first and once with legal ids, only allowed frames per stream kind, complete frames whose declared length matches, reserved ids of the 0x1f*N+0x21 form, GOAWAY ids legal for the role; the semantic frame content must equal that of the accept-everything run.",
          "trusted: src/simnet/wire.rs + src/reference/frames.rs; write futures are never cancelled mid-frame (outside the documented patterns)",
          "DESIGN.md section 3 C14"),
+ "C04": ("simnet",
+         "exhaustive enumeration (odometer over a bounded scenario generator) + property-based testing of larger peer behaviours, against a reference control/uni-stream machine (model-based), over generated schedules and credit starvation",
+         "A scripted raw peer opens unidirectional streams of every kind (control with every <= 2-frame sequence over the 10-symbol control alphabet after/without SETTINGS, FIN/RESET/open; duplicate control/encoder/decoder; push; WebTransport-uni with multi-byte ids; grease; unknown; ended before/inside the type varint; all four varint forms) in tape-chosen arrival order and chunking, against a real h3 server and client whose own outgoing streams are starved of stream and send credit; the close code at the transport, the driver result, settings() and the GOAWAY effect (server accept()==None / client send_request => RemoteClosing, and not otherwise) must match the reference machine; RESET endings are judged against every prefix the endpoint may have seen.",
+         "trusted: reference machine in src/props/c04.rs; push streams / CANCEL_PUSH are outside the statement (any outcome); simulated transport",
+         "DESIGN.md section 3 C04"),
 }
 
 NOT_YET = "check not built yet in this session (see DESIGN.md section 5 for the construction order); no claim is made"
